@@ -624,7 +624,7 @@ func scheduleSignature(tracePath string) (string, string, int) {
 }
 
 func runE2E(r *lib.Run) {
-	nRepos := r.Pick(20, 100)
+	nRepos := r.Pick(16, 100)
 	nInv := 6 // a count, like everything else; not scaled by VERIF_SCALE so that there is always something to compare
 	if !r.Quick() {
 		nInv = 10
